@@ -76,6 +76,9 @@ type Property struct {
 	Level string
 	Rule  string
 	Check func(r *Run)
+	// Manifest texts
+	Text      string
+	Technique string
 }
 
 var properties = map[string]*Property{}
@@ -91,6 +94,10 @@ var trustedBase = []string{
 }
 
 func main() {
+	if len(os.Args) == 2 && os.Args[1] == "manifest" {
+		writeManifest()
+		return
+	}
 	if len(os.Args) < 3 {
 		fmt.Fprintln(os.Stderr, "usage: vcheck <Cxx> <quick|thorough> [--replay path]")
 		os.Exit(3)
